@@ -816,19 +816,24 @@ impl OutstationSession {
 
                 Ok(UnsolicitedWaitResult::ReadNext)
             }
-            FragmentType::MalformedRequest(_, err) => {
+            FragmentType::MalformedRequest(hash, err) => {
                 self.state.deferred_read.clear();
 
                 let seq = request.header.control.seq;
                 let iin = Iin::default() | Iin2::from(err);
-                self.write_solicited(
-                    io,
-                    writer,
-                    info.addr,
-                    Response::empty_solicited(seq, iin),
-                    database,
-                )
-                .await?;
+                let response = self
+                    .write_solicited(
+                        io,
+                        writer,
+                        info.addr,
+                        Response::empty_solicited(seq, iin),
+                        database,
+                    )
+                    .await?;
+                // just as in the idle state, this is now the request processed last: a later
+                // fragment is not a retransmission of whatever came before it
+                self.state.last_valid_request =
+                    Some(LastValidRequest::new(seq, hash, Some(response), None));
                 Ok(UnsolicitedWaitResult::ReadNext)
             }
             FragmentType::NewNonRead(hash, objects) => {
